@@ -2,6 +2,7 @@
 spec encoder, spec decoder (any block partition, negative counts), normalisation of
 read-back values, and the union branch rule stated in property C09."""
 from .ir import deref, branch_name
+from . import ir as _ir
 from .conform import conforms, _is_int
 
 
@@ -34,7 +35,7 @@ def normalise(node, d, names, f32=lambda x: x):
             if f["name"] in d:
                 out[f["name"]] = normalise(f["t"], d[f["name"]], names, f32)
             elif f["has_default"]:
-                out[f["name"]] = normalise(f["t"], f["default"], names, f32)
+                out[f["name"]] = normalise(f["t"], _ir.default_value(f["t"], f["default"], names), names, f32)
             else:
                 out[f["name"]] = normalise(f["t"], None, names, f32)
         return out
@@ -132,7 +133,7 @@ def encode(node, d, names, out, pick=None):
             if f["name"] in d:
                 encode(f["t"], d[f["name"]], names, out, pick)
             elif f["has_default"]:
-                encode(f["t"], f["default"], names, out, pick)
+                encode(f["t"], _ir.default_value(f["t"], f["default"], names), names, out, pick)
             else:
                 encode(f["t"], None, names, out, pick)
     elif k == "union":
